@@ -22,10 +22,20 @@ SYMEX = os.path.join(VERIF, "symex")
 SCRATCH_ROOT = os.path.join(tempfile.gettempdir(), "oh-verif-sym")
 
 SUITES = {
-    # property -> list of suites of the harness binary
-    "C14": ["c14"],
-    "C20": ["c20"],
+    # property -> list of (suite of the harness binary, label filter). A suite may serve several
+    # properties; a violation belongs to the property whose filter matches its kind / label prefix.
+    "C01": [("c01", ("check", "day schedule:"))],
+    "C14": [("c14", ("check", ""))],
+    "C17": [("c01", ("check", "comments:"))],
+    "C20": [("c20", ("check", ""))],
 }
+
+
+def _belongs(v, flt):
+    kind, prefix = flt
+    if v.get("kind") != kind:
+        return False
+    return v.get("label", "").startswith(prefix)
 
 WS_TOML = """[workspace]
 resolver = "2"
@@ -309,7 +319,7 @@ def run_property(prop, tier, out, jobs=16):
     max_paths = 60_000 if tier == "quick" else 400_000
     timeout = 900 if tier == "quick" else 4 * 3600
     try:
-        for suite in suites:
+        for suite, flt in suites:
             outdir = os.path.join(CACHE, "sym-out", f"{prop}.{suite}.{os.getpid()}")
             shutil.rmtree(outdir, ignore_errors=True)
             os.makedirs(outdir)
@@ -366,6 +376,8 @@ def run_property(prop, tier, out, jobs=16):
                 bad = False
                 unlisted = []
                 for v in rep["violations"]:
+                    if not _belongs(v, flt):
+                        continue
                     k = next((e for e in known if finding_matches(e, suite, tid, v)), None)
                     if k is not None:
                         text = f"{k.get('what')} [S {suite}/{tid}: {v['label']}; model {v['model']}]"
@@ -396,13 +408,10 @@ def run_property(prop, tier, out, jobs=16):
                 if rep["errors"]:
                     out.inconclusive.append(f"S {suite}/{tid}: {rep['errors'][:3]}")
                     bad = True
-                if not rep["exhaustive"] and not rep["violations"] and not rep["errors"]:
+                if not rep["exhaustive"] and not rep["errors"]:
                     out.inconclusive.append(f"S {suite}/{tid}: exploration not exhaustive")
                     bad = True
                 if not bad and rep["exhaustive"]:
-                    out.coverage["discharged"] += 1
-                elif not bad and rep["violations"] and not unlisted:
-                    # only listed known findings on this template: exploration stops at the violation cap
                     out.coverage["discharged"] += 1
                 if len([s for s in out.coverage["samples"] if s.get("engine") == "S"]) < 40 or "violations" in sample or "known_findings" in sample:
                     out.coverage["samples"].append(sample)
